@@ -282,6 +282,7 @@ def r3_anchor_and_registry(ctx, rep):
 
 def r4_dir_ident_overrides(ctx, rep):
     py = ctx.py
+    _interface_procs_hidden(ctx, rep)
     for cls, ci in py.classes.items():
         if "get_dir" in ci.methods and cls != "FortranBase" and not cls.startswith("External"):
             g = ast.unparse(ci.methods["get_dir"])
@@ -297,6 +298,23 @@ def r4_dir_ident_overrides(ctx, rep):
                 rep.ob(f"{cls}: get_dir override", True,
                        "directory redirected; uniqueness rests on the get_dir()-namespaced counter (R1)",
                        py.nloc(ci.methods["get_dir"]), nontrivial=False)
+
+
+def _interface_procs_hidden(ctx, rep):
+    """the procedure inside a non-generic interface block borrows the block's directory and identifier; that is only
+    sound while it is never linked on its own, i.e. while its `visible` flag stays False"""
+    py = ctx.py
+    hits = []
+    for _, fn in py.all_functions():
+        for n in ast.walk(fn):
+            if isinstance(n, ast.Assign) and any(ast.unparse(t).endswith(".procedure.visible") for t in n.targets) and \
+                    isinstance(n.value, ast.Constant) and n.value.value is True:
+                hits.append(n)
+    rep.ob("interface-block procedures are never made linkable on their own", not hits,
+           "no statement sets <interface>.procedure.visible = True" if not hits else
+           f"`{ast.unparse(hits[0])}`: the wrapped procedure's URL is interface/<ident of the block>.html with the ident taken from "
+           f"the block's own namespace; for a block local to a procedure that page does not exist or belongs to an equally named "
+           f"module-level interface", py.nloc(hits[0]) if hits else "ford/sourceform.py")
 
 
 LOSSY = ("re.sub", "replace", "translate", "lower", "upper", "strip", "casefold", "split", "encode")
@@ -367,6 +385,27 @@ def r5_no_transformation_after_uniqueness(ctx, rep):
     check_site("FortranBase.get_url", gu, "self", "{dir}/" + PH + ".html", select=under_dir)
     check_site("DocPage.object_page", py.func("DocPage.object_page"), "self.obj", PH + ".html")
     check_site("FortranBase.anchor", py.func("FortranBase.anchor"), "self", "{obj}-" + PH)
+    # saved graph files: <graph_dir>/<imgfile>.{gv,svg} - the name must keep what distinguishes the identifiers
+    gi = py.func("FortranGraph.__init__")
+    img = [v for _, v in astq.assignments(gi, "self.imgfile") if v is not None]
+    if not img:
+        raise AnalysisError("FortranGraph.__init__: self.imgfile is not assigned")
+    lossy = []
+    for v in img:
+        exprs = astq.expand_locals(v, gi)
+        for e in list(exprs):
+            for c in ast.walk(e):
+                if isinstance(c, ast.Call) and isinstance(c.func, ast.Name) and f"graphs.{c.func.id}" in py.functions:
+                    h = py.functions[f"graphs.{c.func.id}"]
+                    exprs += [x for r in astq.returns(h) for x in astq.expand_locals(r, h)]
+        for e in exprs:
+            for c in ast.walk(e):
+                if isinstance(c, ast.Call) and (call_name(c) in LOSSY or call_name(c).split(".")[-1] in LOSSY):
+                    lossy.append(call_name(c))
+    rep.ob("graph file names keep the identifier", not lossy,
+           "imgfile is the graph identifier itself" if not lossy else
+           f"the file name of a saved graph is derived from the identifier through {sorted(set(lossy))}: identifiers that differ only "
+           f"in the removed characters (operator(+), operator(-), operator(==)) write to the same .svg/.gv file", py.nloc(gi))
     # several procedures of one *generic* interface must keep their own identifiers
     ip = py.func("FortranProcedure.is_interface_procedure")
     rtxt = " ".join(ast.unparse(r) for r in astq.returns(ip))
